@@ -37,6 +37,9 @@ type step struct {
 type spec struct {
 	PageSize int
 	Steps    []step
+	// SyncOff: the writer runs with PRAGMA synchronous=OFF (its journal header
+	// carries the magic as soon as the journal exists, while it only holds RESERVED)
+	SyncOff bool `json:",omitempty"`
 }
 
 var moves = []string{"begin", "begin-immediate", "begin-exclusive", "write-small", "write-small", "write-spill", "cursor-open", "cursor-close", "r2-open", "r2-close", "commit", "commit", "rollback", "nothing"}
@@ -53,7 +56,7 @@ func TestC07LockStates(t *testing.T) {
 		},
 		Teardown: func() { env.Close() },
 		Gen: func(t *rapid.T) spec {
-			s := spec{PageSize: rapid.SampledFrom([]int{512, 1024, 4096}).Draw(t, "ps")}
+			s := spec{PageSize: rapid.SampledFrom([]int{512, 1024, 4096}).Draw(t, "ps"), SyncOff: rapid.IntRange(0, 2).Draw(t, "syncoff") == 0}
 			n := rapid.IntRange(2, 14).Draw(t, "nsteps")
 			for i := 0; i < n; i++ {
 				s.Steps = append(s.Steps, step{rapid.SampledFrom(moves).Draw(t, "move"), rapid.SampledFrom(reads).Draw(t, "read"), rapid.IntRange(0, 100).Draw(t, "n")})
@@ -84,6 +87,11 @@ func run(r *vt.Run, t vt.TB, s spec) {
 	// a small cache makes a big write spill dirty pages into the file before commit
 	if err := env.O.Exec("w", "PRAGMA cache_size=2"); err != nil {
 		r.Harness(t, "cache_size: %v", err)
+	}
+	if s.SyncOff {
+		if err := env.O.Exec("w", "PRAGMA synchronous=OFF"); err != nil {
+			r.Harness(t, "synchronous: %v", err)
+		}
 	}
 	probeFile, err := os.Open(path)
 	if err != nil {
@@ -380,7 +388,7 @@ func run(r *vt.Run, t vt.TB, s spec) {
 	if inTxn {
 		do("w", "ROLLBACK")
 	}
-	cls := []string{fmt.Sprintf("ps=%d", s.PageSize)}
+	cls := []string{fmt.Sprintf("ps=%d", s.PageSize), fmt.Sprintf("sync-off=%v", s.SyncOff)}
 	for c := range classes {
 		cls = append(cls, c)
 	}
